@@ -50,22 +50,36 @@ func verifLoggingCfg() (config.LoggingConfig, string, string) {
 }
 
 // verifClientValue: what net/http's parser can deliver for a header value
-// (no leading/trailing white space), of length 1..3, or absent.
-func verifClientValue(name string) (string, bool) {
+// (no control characters, no leading/trailing ASCII white space; bytes >= 0x80
+// are legal field content and are delivered as they are), of length 1..3, or absent.
+func verifClientValue(name string, rich bool) (string, bool) {
 	if !verifrt.Bool(name + ".present") {
 		return "", false
+	}
+	if !rich {
+		return "edge-7f3a", true
 	}
 	// a header that is present but blank ("X-Request-ID:" with an empty value): treated as "not supplied"
 	if verifrt.Bool(name + ".blank") {
 		return "", true
 	}
+	// long identifiers (a full W3C traceparent with tracestate, a signed token): concrete, 129 and 1025 bytes
+	switch verifrt.Choice(name+".long", 3) {
+	case 1:
+		return verifLongID[:128] + "Z", true
+	case 2:
+		return verifLongID[:1024] + "Z", true
+	}
 	n := 1 + verifrt.Choice(name+".len", 3)
 	v := verifrt.String(name, n)
 	for i := 0; i < len(v); i++ {
-		verifrt.Assume(v[i] > ' ' && v[i] < 0x7f)
+		verifrt.Assume((v[i] > ' ' && v[i] < 0x7f) || v[i] >= 0x80)
 	}
 	return v, true
 }
+
+// verifLongID: 1024 bytes of token characters
+const verifLongID = "0123456789abcdef-0123456789abcdef-0123456789abcdef-0123456789abcdef-0123456789abcdef-0123456789abcdef-0123456789abcdef-0123456789abcdef-0123456789abcdef-0123456789abcdef-0123456789abcdef-0123456789abcdef-0123456789abcdef-0123456789abcdef-0123456789abcdef-0123456789abcdef-0123456789abcdef-0123456789abcdef-0123456789abcdef-0123456789abcdef-0123456789abcdef-0123456789abcdef-0123456789abcdef-0123456789abcdef-0123456789abcdef-0123456789abcdef-0123456789abcdef-0123456789abcdef-0123456789abcdef-0123456789abcdef-0123456789abcdef-0123456789abcdef-0123456789abcdef-0123456789abcdef-0123456789abcdef-0123456789abcdef-0123456789abcdef-0123456789abcdef-0123456789abcdef-0123456789abcdef-0123456789abcdef-0123456789abcdef-0123456789abcdef-0123456789abcdef-0123456789abcdef-0123456789abcdef-0123456789abcdef-0123456789abcdef-0123456789abcdef-0123456789abcdef-0123456789abcdef-0123456789abcdef-0123456789abcdef-0123456789abcdef-0123456789abcdef-0123456789abcdef-0123456789abcdef-0123456789abcdef-0123456789abcdef-0123456789abcdef-0123"
 
 // VerifC16Propagation: request-ID / trace-ID headers across every
 // enabled/disabled combination, default and custom header names, client
@@ -84,13 +98,24 @@ func VerifC16Propagation() {
 	h := RequestContextMiddleware(cfg)(next)
 	r := &http.Request{Method: "GET", URL: &url.URL{Path: "/x"}, Header: http.Header{}, RemoteAddr: "10.0.0.1:1"}
 	r.Header.Set("Accept", "*/*")
-	cr, hasR := verifClientValue("clientRequestID")
-	ct, hasT := verifClientValue("clientTraceID")
+	// one of the two headers ranges over every deliverable value, the other is absent or a plain token
+	richR := verifrt.Bool("requestIDisTheArbitraryOne")
+	cr, hasR := verifClientValue("clientRequestID", richR)
+	ct, hasT := verifClientValue("clientTraceID", !richR)
 	if hasR {
 		r.Header.Set(reqH, cr)
 	}
 	if hasT {
 		r.Header.Set(traceH, ct)
+	}
+	// a client may send the header more than once (two field lines)
+	twoR := hasR && richR && verifrt.Bool("clientRequestID.secondLine")
+	twoT := hasT && !richR && verifrt.Bool("clientTraceID.secondLine")
+	if twoR {
+		r.Header.Add(reqH, "origin-0042")
+	}
+	if twoT {
+		r.Header.Add(traceH, "origin-0042")
 	}
 	w := &verifWriter{hdr: http.Header{}}
 	h.ServeHTTP(w, r)
@@ -119,6 +144,15 @@ func VerifC16Propagation() {
 	} else {
 		verifrt.Assert(gotT == "" && seenT == ct, "trace feature disabled: header neither generated nor altered")
 	}
+	// a header the client supplied reaches the backend as the client sent it - every field line of it
+	if hasR && (cr != "" || !cfg.RequestID.Enabled) {
+		vs := next.req.Header.Values(reqH)
+		verifrt.Assert(len(vs) == 1+verifB2I(twoR) && vs[0] == cr && (!twoR || vs[1] == "origin-0042"), "a client-supplied request-ID header reaches the backend unchanged (every field line)")
+	}
+	if hasT && (ct != "" || !cfg.Trace.Enabled) {
+		vs := next.req.Header.Values(traceH)
+		verifrt.Assert(len(vs) == 1+verifB2I(twoT) && vs[0] == ct && (!twoT || vs[1] == "origin-0042"), "a client-supplied trace header reaches the backend unchanged (every field line)")
+	}
 	n := 0
 	for range w.hdr {
 		n++
@@ -135,6 +169,13 @@ func VerifC16Propagation() {
 		want++
 	}
 	verifrt.Assert(n == want, "the only response headers the middleware adds are the ID headers")
+}
+
+func verifB2I(b bool) int {
+	if b {
+		return 1
+	}
+	return 0
 }
 
 // VerifC01Middleware is the transparency view of the same exchange (C01b).
